@@ -1,5 +1,5 @@
 From Coq Require Import List NArith ZArith Bool.
-From LTV.C11 Require Import Model ProofsParams Proofs Proofs2 ProofsInv ProofsInv2 ProofsInv3 ProofsInv4 ProofsAlloc ProofsGlob ProofsLim ProofsLim2 ProofsLim3 ProofsLim4 ProofsGlob2 ProofsNT ProofsWire.
+From LTV.C11 Require Import Model ProofsParams Proofs Proofs2 ProofsInv ProofsInv2 ProofsInv3 ProofsInv4 ProofsAlloc ProofsGlob ProofsLim ProofsLim2 ProofsLim3 ProofsLim4 ProofsGlob2 ProofsNT ProofsNT2 ProofsNT3 ProofsWire.
 Import ListNotations.
 Local Open Scope Z_scope.
 
@@ -42,16 +42,16 @@ Print Assumptions set_not_snubbed_accounting.
      DownloadInfo counter = |e_u|;  queue counters = sums of the list sizes of the group's torrents;
      group container = exactly the torrents of the group (no duplicates);
      download side: queued -> remote has unchoked us. *)
-Theorem counters_inv : forall nt0 ng0 ops s, (0 < nt0)%nat -> (0 < ng0)%nat ->
-  run (init nt0 ng0) ops = Ok s -> InvL Up (s_up s) /\ InvL Dn (s_dn s).
+Theorem counters_inv : forall hold nt0 ng0 ops s, (0 < nt0)%nat -> (0 < ng0)%nat ->
+  run (init_h hold nt0 ng0) ops = Ok s -> InvL Up (s_up s) /\ InvL Dn (s_dn s).
 Proof. exact ProofsInv4.membership_inv. Qed.
 Print Assumptions counters_inv.
 
 (* the global counter ResourceManager::m_currently{Upload,Download}Unchoked equals the sum of the
    groups' currently_unchoked after EVERY op list (close, balance_entry, tick, group moves, and the
    direct unit-level entry points choke_queue::balance / choke_queue::cycle included). *)
-Theorem global_counter : forall nt0 ng0 ops s, (0 < nt0)%nat -> (0 < ng0)%nat ->
-  run (init nt0 ng0) ops = Ok s ->
+Theorem global_counter : forall hold nt0 ng0 ops s, (0 < nt0)%nat -> (0 < ng0)%nat ->
+  run (init_h hold nt0 ng0) ops = Ok s ->
   h_cur (s_up s) = SQu (s_up s) /\ h_cur (s_dn s) = SQu (s_dn s).
 Proof. exact ProofsGlob2.global_counter_all. Qed.
 Print Assumptions global_counter.
@@ -67,28 +67,26 @@ Print Assumptions allocate_slots_exact.
 
 (* cycle_no_throw, the allocation part: the unbounded "find start" loop of
    choke_manager_allocate_slots never leaves the 4-element arrays and the function raises nothing.
-   Partial: the remaining throws of adjust_choke_range / cycle (first > size of class, count > max,
-   unchoked.size() > quota) need the bookkeeping of the local containers, which is not finished. *)
-Theorem cycle_no_throw_alloc_partial : forall (heur : nat) (choke : bool) s0 s1 s2 s3 mx h,
+   (part of cycle_no_throw below) *)
+Theorem allocate_slots_no_throw : forall (heur : nat) (choke : bool) s0 s1 s2 s3 mx h,
   allocate_slots (if choke then choke_table heur else unchoke_table heur) [s0; s1; s2; s3] mx h <> Err EFault /\
   allocate_slots (if choke then choke_table heur else unchoke_table heur) [s0; s1; s2; s3] mx h <> Err EInternal.
 Proof. exact ProofsAlloc.allocate_slots_no_fault_real. Qed.
-Print Assumptions cycle_no_throw_alloc_partial.
+Print Assumptions allocate_slots_no_throw.
 
 (* cycle_no_throw, the adjust_choke_range part: on a duplicate-free range of connections of group g
    that are all in the expected state (queued-and-choked for an unchoke pass, unchoked for a choke
    pass; POK) with weights below 2^32, adjust_choke_range raises neither internal_error nor runs its
    "find start" loop out of the arrays, and it chokes / unchokes exactly min(max, |range|)
    connections. Also: a slot call on a connection in the expected state always succeeds (slot_ok).
-   Partial: that the local containers built by retrieve_connections satisfy these hypotheses, and
-   the final `unchoked.size() > quota` check of cycle, are not assembled yet. *)
-Theorem cycle_no_throw_acr_partial : forall d v heur g range mx choke h, v_dir v = d -> InvL d h ->
+   (used by cycle_no_throw below, which discharges these hypotheses for the containers cycle builds) *)
+Theorem adjust_choke_range_no_throw : forall d v heur g range mx choke h, v_dir v = d -> InvL d h ->
   NoDup (ids range) -> POK g choke h (ids range) -> (forall p, In p range -> (snd p < two32)%N) ->
   adjust_choke_range v heur range mx choke h <> Err EInternal /\
   adjust_choke_range v heur range mx choke h <> Err EFault /\
   (forall h' cnt, adjust_choke_range v heur range mx choke h = Ok (h', cnt) -> cnt = N.min mx (lenN range)).
 Proof. exact ProofsNT.acr_ok. Qed.
-Print Assumptions cycle_no_throw_acr_partial.
+Print Assumptions adjust_choke_range_no_throw.
 
 Theorem slot_ok : forall d v c choke h, v_dir v = d -> InvL d h -> (c < nc h)%nat -> flag choke (getcs h c) = true ->
   exists h', slot v c choke h = Ok (h', true).
@@ -98,16 +96,43 @@ Print Assumptions slot_ok.
 (* cycle_rotates, the adjust_choke_range part: with a non-empty duplicate-free list of queued
    candidates in the expected state and a remaining quota >= 1, the unchoke pass of cycle (whose
    request is max(quota - |unchoked|, alternate) capped by the quota) unchokes at least one queued
-   connection, exactly min(request, |queued|) of them.  Partial: that the request goes to the highest
-   non-empty weight class first, and the assembly with retrieve_connections, are not proved. *)
-Theorem cycle_rotates_acr_partial : forall d v heur g queued (q : queue) (U quota' : N) h h' cnt,
+   connection, exactly min(request, |queued|) of them (used by cycle_rotates below). *)
+Theorem adjust_choke_range_rotates : forall d v heur g queued (q : queue) (U quota' : N) h h' cnt,
   v_dir v = d -> InvL d h -> NoDup (ids queued) -> POK g false h (ids queued) ->
   (forall p, In p queued -> (snd p < two32)%N) -> queued <> [] ->
   (1 <= quota')%N -> Z.of_N U <= q_cu q ->
   adjust_choke_range v heur queued (N.min (N.max (if (U <? quota')%N then quota' - U else 0) (max_alternate q)) quota')%N false h = Ok (h', cnt) ->
   (1 <= cnt)%N /\ cnt = N.min (N.min (N.max (if (U <? quota')%N then quota' - U else 0) (max_alternate q)) quota') (lenN queued).
 Proof. exact ProofsNT.cycle_rotates_acr. Qed.
-Print Assumptions cycle_rotates_acr_partial.
+Print Assumptions adjust_choke_range_rotates.
+
+(* cycle_no_throw: in every state satisfying the invariant (hence in every reachable state, counters_inv),
+   choke_queue::cycle raises no internal_error (none of: receive_*_choke "already set", group_entry
+   "failed", adjust_choke_range "first > size" / "bad range" / "count > max", cycle "unchoked.size() >
+   quota") and its unbounded "find start" loop stays inside the arrays.  NT r := r <> Err EInternal /\
+   r <> Err EFault (the third model outcome, fuel exhaustion, has no counterpart in the code). *)
+Theorem cycle_no_throw : forall d v g quota h, v_dir v = d -> InvL d h -> (g < ng h)%nat -> NT (cycle v g quota h).
+Proof. exact ProofsNT2.cycle_no_throw. Qed.
+Print Assumptions cycle_no_throw.
+
+(* cycle_rotates: max_alternate >= 1 whenever a slot is occupied, and a cycle whose effective quota is
+   >= 1, in a group without min_slots reservations where some torrent has a waiting (queued, choked,
+   not snubbed) connection and room below its max_slots, gives a slot to a connection that was
+   waiting: after the cycle that connection is unchoked.  (Which waiting connection is chosen is
+   decided by the weights, i.e. by rates and random(): see fairness in the report.) *)
+Theorem max_alternate_pos : forall q : queue, 1 <= q_cu q -> (1 <= max_alternate q)%N.
+Proof. exact ProofsNT3.max_alternate_pos. Qed.
+Print Assumptions max_alternate_pos.
+
+Theorem cycle_rotates : forall d v g quota h h' z, v_dir v = d -> InvL d h -> (g < ng h)%nat ->
+  (forall t, In t (q_ents (getq h g)) -> e_min (getent h t) = 0%N) ->
+  (1 <= N.min quota (q_max (getq h g)))%N ->
+  (exists t, In t (q_ents (getq h g)) /\ e_q (getent h t) <> [] /\ (lenN (e_u (getent h t)) < e_max (getent h t))%N) ->
+  cycle v g quota h = Ok (h', z) ->
+  exists c, (c < nc h)%nat /\ inq (getcs h c) = true /\ grp_of h (tor_of h c) = g /\
+            cs_u (getcs h' c) = true /\ cs_a (getcs h' c) = true.
+Proof. exact ProofsNT3.cycle_rotates. Qed.
+Print Assumptions cycle_rotates.
 
 (* limits for choke_queue::cycle: in every reachable-style state (InvL) a cycle of group g ends with
      currently_unchoked(g) <= max( min(quota, max_unchoked(g)), slots forced by min_slots in g )
@@ -149,8 +174,8 @@ Theorem wire_accept_complete : forall steps, wire_accept false (wobserve winit s
 Proof. exact ProofsWire.wire_accept_complete. Qed.
 Print Assumptions wire_accept_complete.
 
-Theorem zero_on_close : forall nt0 ng0 ops s, (0 < nt0)%nat -> (0 < ng0)%nat ->
-  run (init nt0 ng0) ops = Ok s ->
+Theorem zero_on_close : forall hold nt0 ng0 ops s, (0 < nt0)%nat -> (0 < ng0)%nat ->
+  run (init_h hold nt0 ng0) ops = Ok s ->
   (forall c, cs_a (getcs (s_up s) c) = false) -> (forall c, cs_a (getcs (s_dn s) c) = false) ->
   (forall t, (t < nt (s_up s))%nat -> e_q (getent (s_up s) t) = [] /\ e_u (getent (s_up s) t) = [] /\ gettn (s_up s) t = 0) /\
   (forall g, (g < ng (s_up s))%nat -> q_cu (getq (s_up s) g) = 0 /\ q_cq (getq (s_up s) g) = 0) /\
@@ -159,13 +184,13 @@ Theorem zero_on_close : forall nt0 ng0 ops s, (0 < nt0)%nat -> (0 < ng0)%nat ->
 Proof. exact ProofsInv4.zero_on_close. Qed.
 Print Assumptions zero_on_close.
 
-Theorem limits_new_unchoke_guard_up : forall v c h h', v_dir v = Up -> try_unchoke_new v c h = Ok h' ->
+Theorem limits_new_unchoke_guard_up : forall v hold c h h', v_dir v = Up -> try_unchoke_new v hold c h = Ok h' ->
   h' = h \/
   (let t := tor_of h c in let q := getq h (grp_of h t) in
    (q_max q = unlimited \/ q_cu q < Z.of_N (q_max q)) /\
    (h_max h = 0%N \/ h_cur h < Z.of_N (h_max h)) /\
    gettn h t < Z.of_N (e_max (getent h t)) /\
-   cs_t (getcs h c) + 10000000 < v_now v).
+   cs_t (getcs h c) + hold < v_now v).
 Proof. exact Proofs2.limits_new_unchoke_guard_up. Qed.
 Print Assumptions limits_new_unchoke_guard_up.
 
